@@ -146,6 +146,15 @@ func (w *wctx) defOf(id *ast.Ident) ast.Expr {
 						re[o] = true
 					}
 				}
+			case *ast.ValueSpec:
+				// var x T = v
+				if len(v.Names) == len(v.Values) {
+					for i, nm := range v.Names {
+						if o := w.info.Defs[nm]; o != nil {
+							w.defs[o] = v.Values[i]
+						}
+					}
+				}
 			case *ast.UnaryExpr:
 				// &x escapes: later writes through the pointer are not visible here
 				if v.Op == token.AND {
@@ -367,6 +376,14 @@ func (w *wctx) stmt(s ast.Stmt, in sigSet) (closed, open sigSet) {
 		}
 		return appendAll(in, el), nil
 	case *ast.ExprStmt:
+		// panic(..): the path ends without a wire form
+		if call, ok := ast.Unparen(v.X).(*ast.CallExpr); ok {
+			if id, ok := ast.Unparen(call.Fun).(*ast.Ident); ok && id.Name == "panic" {
+				if _, isBuiltin := w.info.Uses[id].(*types.Builtin); isBuiltin {
+					return nil, nil
+				}
+			}
+		}
 		return nil, cross(in, w.exprPaths(v.X))
 	case *ast.AssignStmt:
 		var el []string
@@ -468,6 +485,32 @@ func (w *wctx) stmt(s ast.Stmt, in sigSet) (closed, open sigSet) {
 		}
 		return nil, appendAll(cur, []string{"Rep{" + nonEmpty(bodyAll).dedupe().render() + "}"})
 	case *ast.RangeStmt:
+		// for _, part := range [...]io.ReaderFrom{a, b}: the body once per listed element, in order
+		if lit := w.rangeLiteral(v.X); lit != nil && v.Value != nil {
+			if vid, ok := v.Value.(*ast.Ident); ok {
+				if vobj := w.info.Defs[vid]; vobj != nil {
+					cur := in
+					var closedAll sigSet
+					if w.bindKind == nil {
+						w.bindKind = map[types.Object][]string{}
+					}
+					for _, el := range lit.Elts {
+						if kv, isKV := el.(*ast.KeyValueExpr); isKV {
+							el = kv.Value
+						}
+						w.bindKind[vobj] = w.elemOf(stripAddr(el), "WriteTo")
+						all, op := w.stmts(v.Body.List, cur)
+						closedAll = append(closedAll, subtract(all, op)...)
+						cur = op
+						if len(cur) == 0 {
+							break
+						}
+					}
+					delete(w.bindKind, vobj)
+					return closedAll, cur
+				}
+			}
+		}
 		bodyAll, _ := w.stmts(v.Body.List, sigSet{{}})
 		if allEmpty(bodyAll) {
 			return nil, in
@@ -484,6 +527,16 @@ func (w *wctx) stmt(s ast.Stmt, in sigSet) (closed, open sigSet) {
 			}
 		case *ast.TypeSwitchStmt:
 			body = sw.Body
+			// switch src := r.(type): inside the clauses src is the stream
+			if as, ok := sw.Assign.(*ast.AssignStmt); ok && len(as.Rhs) == 1 {
+				if ta, ok := ast.Unparen(as.Rhs[0]).(*ast.TypeAssertExpr); ok && w.isStream(ta.X) {
+					for _, cs := range sw.Body.List {
+						if obj := w.info.Implicits[cs]; obj != nil {
+							w.streams[obj] = true
+						}
+					}
+				}
+			}
 		}
 		var alts []string
 		var cl sigSet
@@ -953,6 +1006,21 @@ func (w *wctx) elemOf(x ast.Expr, method string) []string {
 			if _, isLit := d.(*ast.CompositeLit); isLit {
 				return w.elemOf(d, method)
 			}
+			// a local holding the field behind an interface: var f FieldEncoder = any(&x).(FieldEncoder)
+			if ta, ok := d.(*ast.TypeAssertExpr); ok && ta.Type != nil {
+				return w.elemOf(ta, method)
+			}
+		}
+	}
+	// any(&x).(FieldEncoder) / FieldEncoder(&x): the field is x
+	if ta, ok := x.(*ast.TypeAssertExpr); ok && ta.Type != nil {
+		inner := ast.Unparen(ta.X)
+		if call, ok := inner.(*ast.CallExpr); ok && len(call.Args) == 1 {
+			if tv, ok := info.Types[call.Fun]; ok && tv.IsType() {
+				if _, isIface := tv.Type.Underlying().(*types.Interface); isIface {
+					return w.elemOf(call.Args[0], method)
+				}
+			}
 		}
 	}
 	// Tuple literal: expand
@@ -1226,5 +1294,72 @@ func foldSet(s sigSet) sigSet {
 	for i, p := range s {
 		out[i] = foldAry(p)
 	}
-	return out.dedupe()
+	out = out.dedupe()
+	// an early return after a common prefix (`if !present { return }` ... tail) and a branch that
+	// rejoins (`if present { tail }`) are the same wire form: both are written prefix + Opt{[tail] else []}
+	for changed := true; changed; {
+		changed = false
+	search:
+		for i, p := range out {
+			for j, q := range out {
+				if i == j || len(q) <= len(p) {
+					continue
+				}
+				pre := true
+				for k := range p {
+					if p[k] != q[k] {
+						pre = false
+						break
+					}
+				}
+				if !pre {
+					continue
+				}
+				tail := sigSet{append(sigPath(nil), q[len(p):]...)}
+				merged := append(append(sigPath(nil), p...), "Opt{"+tail.render()+" else []}")
+				var next sigSet
+				for k, r := range out {
+					if k != i && k != j {
+						next = append(next, r)
+					}
+				}
+				out = append(next, merged).dedupe()
+				changed = true
+				break search
+			}
+		}
+	}
+	return out
+}
+
+// rangeLiteral: the expression ranged over is a slice/array literal of fields (directly, or a local
+// that holds one and is not reassigned).
+func (w *wctx) rangeLiteral(x ast.Expr) *ast.CompositeLit {
+	x = ast.Unparen(x)
+	if id, ok := x.(*ast.Ident); ok {
+		if def := w.defOf(id); def != nil {
+			x = ast.Unparen(def)
+		}
+	}
+	lit, ok := x.(*ast.CompositeLit)
+	if !ok || len(lit.Elts) == 0 || len(lit.Elts) > 16 {
+		return nil
+	}
+	t := w.info.TypeOf(lit)
+	if t == nil {
+		return nil
+	}
+	var el types.Type
+	switch u := t.Underlying().(type) {
+	case *types.Slice:
+		el = u.Elem()
+	case *types.Array:
+		el = u.Elem()
+	default:
+		return nil
+	}
+	if _, isIface := el.Underlying().(*types.Interface); !isIface {
+		return nil
+	}
+	return lit
 }
